@@ -119,9 +119,10 @@ PROPS.update({
     },
     "C13": {
         "level": "fault_enumeration",
+        "real_binary_timeout": True,
         "parts": [{"engine": "fault", "profile": "c13", "weight": 1}],
         "rule": "for each sampled task (timeout 100ms..1s, <=3 commands, variations, before/after hooks, allow_failure on/off) the overrunning command is placed at EVERY position (index mod 64 -> position x shape) with shapes: finishes 1 ms before the deadline, stalls and dies on interrupt, ignores the interrupt until killed (1 ms..2 s), overruns by a margin, shell while-loop around the command, none. Fake clock: deadlines compared exactly. As a stage of a pipeline the timed-out task's stage must end Error (Done with stage allow_failure) - not Canceled - and Schedule must report the failure. distinct = canonical event-log hash; all runs non-trivial",
-        "assumptions": _INTEG_ASSUME,
+        "assumptions": _INTEG_ASSUME + ["the interrupt-then-kill behaviour of mvdan/sh's DefaultExecHandler is modelled in the simulation and probed once per check with the real binary (real_binary_timeout_probe in the evidence)"],
     },
 })
 
